@@ -19,15 +19,20 @@ PKG_OPS = {"pkg/config": ["config"], "pkg/errors": ["suggest", "parse"], "pkg/sq
            "pkg/sql/security": ["scan"], "pkg/linter": ["lint"], "pkg/sql/tokenizer": ["tokenize"], "pkg/sql/parser": ["parse"],
            "pkg/gosqlx": ["parse", "format", "extract"], "pkg/formatter": ["format"], "pkg/sql/keywords": ["tokenize", "parse"]}
 
-STAT_FIELDS = {  # field of the metrics struct -> key of the harness projection (fields exposed exactly by the snapshots)
-    "pkg/metrics": {f: "metrics." + f for f in
-                    ["tokenizeOperations", "tokenizeErrors", "parseOperations", "parseErrors", "statementsCreated", "poolGets", "poolPuts",
-                     "astPoolGets", "astPoolPuts", "stmtPoolGets", "stmtPoolPuts", "exprPoolGets", "exprPoolPuts", "minQuerySize",
-                     "maxQuerySize", "totalQueryBytes", "errorsByType"]},
-    "pkg/sql/monitor": {f: "monitor." + f for f in
-                        ["TokenizerCalls", "TokensProcessed", "TokenizerErrors", "ParserCalls", "ParserErrors", "StatementsProcessed",
-                         "PoolHits", "PoolMisses", "TokenizerDuration", "ParserDuration"]},
-}
+# snapshot fields the harness projection exposes exactly (label = package prefix + public snapshot field name)
+EXPOSED = {"pkg/metrics": ("metrics.", ["TokenizeOperations", "TokenizeErrors", "ParseOperations", "ParseErrors", "StatementsCreated", "PoolGets", "PoolPuts",
+                                       "ASTPoolGets", "ASTPoolPuts", "StmtPoolGets", "StmtPoolPuts", "ExprPoolGets", "ExprPoolPuts", "MinQuerySize",
+                                       "MaxQuerySize", "TotalBytesProcessed", "ErrorsByType"]),
+           "pkg/sql/monitor": ("monitor.", ["TokenizerCalls", "TokensProcessed", "TokenizerErrors", "ParserCalls", "ParserErrors", "StatementsProcessed",
+                                           "PoolHits", "PoolMisses", "TokenizerDuration", "ParserDuration"])}
+
+
+def stat_fields(tabs, pkg):
+    """private field of the metrics struct -> label of the harness projection, through the public snapshot name"""
+    pre, names = EXPOSED[pkg]
+    return {f: pre + pub for f, pub in tabs[pkg]["public"].items() if pub in names}
+
+
 HARNESS_FUNCS = {"pkg/metrics": "metrics.", "pkg/sql/monitor": "monitor."}
 KNOWN_RECORD = {"metrics.RecordTokenization", "metrics.RecordParse", "metrics.RecordPoolGet", "metrics.RecordPoolPut", "metrics.RecordASTPoolGet",
                 "metrics.RecordASTPoolPut", "metrics.RecordStatementPoolGet", "metrics.RecordStatementPoolPut", "metrics.RecordExpressionPoolGet",
@@ -168,8 +173,8 @@ def run_seq_correspondence(rp, tabs, rng, n):
         for pkg in sorted({c[0] for c in cs}):
             t = tabs[pkg]
             calls = ["(%s_%s, %s)" % (gen10.short(pkg), p["func"], zl(a + [0] * len(p.get("opaque") or []))) for k, p, a in cs if k == pkg]
-            exp = ["(%d%%N, (%d)%%Z)" % (t["fid"][f], r["stats"][key]) for f, key in STAT_FIELDS[pkg].items() if f in t["fid"] and key in r["stats"]]
-            init = "(fun l => if N.eqb l %d%%N then (-1)%%Z else 0%%Z)" % t["fid"].get("minQuerySize", 9999)
+            exp = ["(%d%%N, (%d)%%Z)" % (t["fid"][f], r["stats"][key]) for f, key in stat_fields(tabs, pkg).items() if f in t["fid"] and key in r["stats"]]
+            init = "(fun l => if N.eqb l %d%%N then (-1)%%Z else 0%%Z)" % next((t["fid"][f] for f, r_ in t["roles"] if r_ == "RMin"), 9999)
             terms.append(("(%s, [%s], [%s])" % (init, "; ".join(calls), "; ".join(exp)), cs, r, pkg))
     body = CASES_HDR + "Definition cases : list (mem * list (list section * list Z) * list (loc * Z)) := [\n" + ";\n".join(t[0] for t in terms) + "].\n"
     body += "Definition bad := Eval vm_compute in bad_cases (fun c => seq_case_ok (fst (fst c)) (snd (fst c), snd c)) 0%N cases.\nPrint bad.\n"
@@ -202,10 +207,10 @@ def seq_true_totals(cs):
             ops += 1; byts += a[1]; sizes.append(a[1]); errs += 1 if a[2] else 0
         elif p["func"] == "RecordParse":
             pops += 1; stmts += a[1]; perrs += 1 if a[2] else 0
-    return {"metrics.tokenizeOperations": ops, "metrics.tokenizeErrors": errs, "metrics.totalQueryBytes": byts,
-            "metrics.parseOperations": pops, "metrics.parseErrors": perrs, "metrics.statementsCreated": stmts,
-            "metrics.minQuerySize": min(sizes) if sizes else -1, "metrics.maxQuerySize": max(sizes) if sizes else 0,
-            "metrics.errorsByType": errs + perrs}
+    return {"metrics.TokenizeOperations": ops, "metrics.TokenizeErrors": errs, "metrics.TotalBytesProcessed": byts,
+            "metrics.ParseOperations": pops, "metrics.ParseErrors": perrs, "metrics.StatementsCreated": stmts,
+            "metrics.MinQuerySize": min(sizes) if sizes else -1, "metrics.MaxQuerySize": max(sizes) if sizes else 0,
+            "metrics.ErrorsByType": errs + perrs}
 
 
 def seq_impl_wrong(cs, r):
@@ -411,7 +416,7 @@ def run(tier):
         if w.get("mode") == "rounds":
             res, err = run_rounds(w["n"], w["rounds"] if not quick else min(w["rounds"], 30000), common.seed(), values=w.get("values"))
             evals += 1
-            flds = ["metrics." + f for f in k["signature"].get("fields", [])]
+            flds = ["metrics." + f for f in k["signature"].get("public_fields", [])]
             fails = bool(res is None or (res["failed_rounds"] and (not flds or any(f in res["fail_count"] for f in flds))))
         elif w.get("mode") == "mix":
             rc, res, races, err = run_mix(w["n"], w["ops_per_g"], common.seed(), w["inputs"], ops=w.get("ops"))
